@@ -8,6 +8,8 @@ import pipeline as pl
 ID = "C06"
 LEAN_MODULES = ["QtyModel.Props.C06", "QtyModel.Props.C06General"]
 HARNESS_GROUPS = ()
+# kinds of difference in the macro-level correspondence (tools/macrofront.py) that are failing inputs here
+MACRO_PARTS = ("impls",)
 RULE = ("all ordered pairs of the 14 catalogue quantity types and the dimensionless amount x operators + - * / == < "
         "(1350 programs) in both back-ends, and the astronomical crate's types (150 programs, f64): rustc's verdict per "
         "program (accepted with the ascribed result type / rejected at that line) compared with the specification relation "
